@@ -68,7 +68,7 @@ class SyncEngine(BaseEngine):
                         result = self._trigger(trigger_data)
                         if first_result is self._sentinel:
                             first_result = result
-                    except Exception:
+                    except BaseException:
                         # Whe clear the queue as we don't have an expected behavior
                         # and cannot keep processing
                         self._external_queue.clear()
